@@ -1,2 +1,94 @@
-// Package c17 is the check for property C17 (see DESIGN.md section 3).
+// Package c17 is the check for property C17: each file is generated exactly once and plugin
+// output stays in its directory.
+//
+// Bounded-exhaustive exploration in three halves (see NOTES.md):
+//
+//	A  requests   every labelled import DAG on n files x every directory layout x WKT/option flags
+//	              x every target subset x strategy x include_imports x include_wkt (x type filters)
+//	              on the real compiler + ImageByDir + ImagesToCodeGeneratorRequests, judged by a
+//	              set-level reference model of the DAG (requests.go)
+//	B  responses  every probe file name of the C13 alphabet x out configuration x entry kind x content
+//	              on the real ValidatePluginResponses + ResponseWriter in a sentinel-laden tree (responses.go)
+//	C  CLI        both halves through `buf generate` in-process with the recording/scripted plugin
+//	              binary protoc-gen-verif (cli.go, protoc-gen-verif/)
 package c17
+
+import (
+	"os"
+	"path/filepath"
+	"time"
+
+	"github.com/bufbuild/bufverif/checks/c13"
+	"github.com/bufbuild/bufverif/internal/evid"
+)
+
+func init() {
+	evid.Register(&evid.Check{ID: "C17", Level: "exploration", Run: run, QuickBudget: 150 * time.Second, ThoroughBudget: 14 * time.Minute})
+}
+
+func run(r *evid.Run) {
+	r.Rule("A: one case = (labelled import DAG, directory per file, WKT/option flag per file, target subset, strategy, include_imports, include_wkt[, type filter]); " +
+		"distinct non-trivial = distinct such tuples whose image contains at least one import or WKT. " +
+		"B/C: one case = (out configuration, probe file name, entry kind, content); distinct = (configuration, kind, structural class of the name, outcome stage). " +
+		"All spaces are enumerated completely, nothing is sampled.")
+	r.Assume("the protoc plugin itself is trusted to be any program: only what buf sends to it and what buf does with its response is judged")
+	r.Assume("out locations are plain directories or .zip/.jar files below one base directory; symlinked or case-folded spellings of one directory are out of scope")
+	r.Assume("under a per-plugin type filter only the filter-independent clauses are demanded (no duplicates, nothing unrequested, files that keep a type are generated, closure, order, source options stripped); which files a filter keeps is C12's subject")
+	r.Assume("remote plugins (BSR code generation service) are out of scope: offline")
+
+	scratch, err := os.MkdirTemp("", "verif-c17-")
+	if err != nil {
+		r.Incomplete("harness: " + err.Error())
+		return
+	}
+	defer os.RemoveAll(scratch)
+	if p, err := filepath.EvalSymlinks(scratch); err == nil {
+		scratch = p
+	}
+
+	bin, binErr := buildPlugin(scratch)
+	if binErr != nil {
+		r.Incomplete("harness: half C skipped: " + binErr.Error())
+	}
+
+	// serial prologue: the only part that depends on the process working directory
+	runRelVsAbs(r, scratch)
+	if binErr == nil {
+		runCLIRelVsAbs(r, scratch, bin)
+	}
+
+	// half A
+	xyz := []string{"x", "y", "x/z"}
+	spaces := []reqSpace{{n: 3, dirs: xyz, wktMasks: allMasks(3), filters: true}}
+	if r.Quick() {
+		spaces = append(spaces, reqSpace{n: 2, dirs: xyz, wktMasks: allMasks(2), filters: true})
+	} else {
+		spaces = append(spaces,
+			reqSpace{n: 2, dirs: xyz, wktMasks: allMasks(2), filters: true},
+			reqSpace{n: 4, dirs: xyz, wktMasks: []int{0, 1, 2, 4, 8, 15}, filters: false},
+		)
+	}
+	runRequests(r, spaces)
+
+	// half B
+	depth := 3
+	if r.Quick() {
+		depth = 2
+	}
+	names := c13.Paths(depth)
+	r.Set("B_probe_name_components", depth)
+	runResponses(r, scratch, names)
+
+	// half C
+	if binErr == nil {
+		cliDepth := 2
+		layoutList := layouts(3, xyz)
+		if r.Quick() {
+			cliDepth = 1
+			layoutList = [][]string{{"x", "y", "x/z"}, {"x/z", "x", "x"}, {"y", "y", "x"}}
+		}
+		r.Set("C_probe_name_components", cliDepth)
+		runCLIResponses(r, scratch, bin, cliNames(cliDepth))
+		runCLIRequests(r, scratch, bin, layoutList)
+	}
+}
